@@ -60,20 +60,31 @@ def Item.uses (n : N) : Item N F G X K → Bool
   | .fn g => g.fps.contains n
   | _ => false
 
+def Item.isX : Item N F G X K → Bool
+  | .x _ => true
+  | _ => false
+
+def Item.isInit : Item N F G X K → Bool
+  | .init _ => true
+  | _ => false
+
+/-- validity of one item of the session -/
+def itemOkB (hasComma : N → Bool) (arity : F → Nat) (names : List N) : Item N F G X K → Bool
+  | .stray _ => false
+  | .fn g => fnItemOk hasComma arity names g
+  | .init v => v.length == names.length
+  | _ => true
+
 /-- **the specification of C15**: the session `new(names); calls…; build()` is valid -/
 def validB (hasComma : N → Bool) (arity : F → Nat) (names : List N)
     (calls : List (Call N F G X K)) : Bool :=
   let items := group (none : Option (FnItem N F)) calls
   namesOk hasComma names &&
-  items.all (fun it => match it with
-    | .stray _ => false
-    | .fn g => fnItemOk hasComma arity names g
-    | .init v => v.length == names.length
-    | _ => true) &&
+  items.all (itemOkB hasComma arity names) &&
   items.any Item.isFnLike &&
   names.all (fun n => items.any (Item.uses n)) &&
-  items.any (fun it => match it with | .x _ => true | _ => false) &&
-  items.any (fun it => match it with | .init _ => true | _ => false)
+  items.any Item.isX &&
+  items.any Item.isInit
 
 /-! ## evaluation by name (C16/C17 specification) -/
 
